@@ -215,7 +215,10 @@ def expected(s: G.Schema, prefix: str, prefixes: Optional[Dict[int, str]] = None
                 e["c_funcs"].add(fn + cn)
                 e["c_funcs_O"].add(fn + cn)
             e["c_funcs"].add("Json" + cn)
-            e["c_defines_exact"].add("BYTES_LENGTH_" + U + upper_snake("".join(sc)))
+            # BYTES_LENGTH_<UPPER_SNAKE_NAME> of the C name: with a prefix that ends in `_` that is the upper-case prefix followed
+            # by the upper-snake schema name; a prefix without the underscore is a word of the name (`L` + Range = LRange -> L_RANGE)
+            e["c_defines_exact"].add("BYTES_LENGTH_" + (U + upper_snake("".join(sc)) if prefix.endswith("_") or not prefix
+                                                        else upper_snake(P + "".join(sc))))
             e["go_structs"]["".join(sc)] = [("".join(w[:1].upper() + w[1:] for w in f.name.split("_")), f.name) for f in fields]
             e["go_consts_exact"].add("BYTES_LENGTH_" + upper_snake("".join(sc)))
             e["py_classes"]["_".join(sc)] = [f.name for f in fields]
@@ -598,6 +601,19 @@ def check(run: common.Run, drv: common.Driver, rng: random.Random, tier: str) ->
             # every file gets its OWN prefix (or none): a referenced definition carries the prefix of its declaring file
             chosen = rng.sample(PREFIXES + [""], len(files)) if len(files) <= len(PREFIXES) + 1 else [rng.choice(PREFIXES) for _ in files]
             pfx = {id(s): p for s, p in zip(files, chosen)}
+            # a prefix that is itself the beginning of one of the file's names (`ZZ_` with const ZZ_TOP, `RANGE_` with enum member
+            # RANGE_RED): the prefix is still put in front of EVERY name.  The textual prefix-removal comparison cannot be used then.
+            echo_prefix = False
+            if rng.random() < 0.3:
+                # documented prefixes end in `_`; such a prefix can only echo UPPER_SNAKE names: constants and enum members
+                uppers = [x.name for x in main.defs if isinstance(x, G.ConstDef) and "_" in x.name]
+                uppers += [n for x in main.defs if isinstance(x, G.EnumDef) for (n, _) in x.members if "_" in n]
+                cand = sorted({u.split("_")[0] + "_" for u in uppers if u.split("_")[0].isalpha()})
+                if cand:
+                    pfx[id(main)] = rng.choice(cand)
+                    chosen = [pfx[id(s)] for s in files]
+                    echo_prefix = True
+                    run.count("prefix_is_the_beginning_of_a_name")
             d = sc.path(f"p{k}")
             os.makedirs(d)
             dn = sc.path(f"p{k}n")
@@ -633,7 +649,8 @@ def check(run: common.Run, drv: common.Driver, rng: random.Random, tier: str) ->
                 run.count("depth=%d" % max([len(G.scope_names(x)) for x in all_defs(s)] + [0]))
                 compare_names(run, rep, s, prefix, with_p, pfx)
                 compare_names(run, dict(rep, prefix=""), s, "", without, {})
-                compare_prefix(run, rep, with_p, without, [p for p in chosen if p])
+                if not echo_prefix:
+                    compare_prefix(run, rep, with_p, without, [p for p in chosen if p])
                 tie_defnames(run, drv, with_p["proto"], prefix, rep)
                 tie_defnames(run, drv, without["proto"], "", rep)
                 if k % 15 == 0:
@@ -697,3 +714,31 @@ def cli_files(run: common.Run, rep: Dict[str, Any], d: str, s: G.Schema) -> None
         if p.returncode != 0 or got != want:
             run.violation(dict(rep, kind="impl-vs-spec", language=lang, what="names of the written files",
                                observed_impl={"exit": p.returncode, "files": sorted(got), "stderr": p.stderr[-300:]}, expected_by_spec=sorted(want)))
+    # the schema reached through a symbolic link, a relative path with `..`, and an absolute path: the output is named after
+    # the base name of the path the user GAVE (`<schema file base name>_bp`), the included header likewise
+    if not s.imports:
+        store = os.path.join(d, "store_q")
+        work = os.path.join(d, "work_q")
+        os.makedirs(store, exist_ok=True)
+        os.makedirs(work, exist_ok=True)
+        src = os.path.join(store, "telemetry_v2.bitproto")
+        if not os.path.exists(src):
+            import shutil
+            shutil.copy(os.path.join(d, f"{base}.bitproto"), src)
+            os.symlink(os.path.join("..", "store_q", "telemetry_v2.bitproto"), os.path.join(work, "current.bitproto"))
+        for lang, spelled, stem in (("c", "current.bitproto", "current"), ("py", os.path.join("..", "work_q", "current.bitproto"), "current"),
+                                    ("go", os.path.join(work, "current.bitproto"), "current"), ("c", os.path.join("..", "store_q", "telemetry_v2.bitproto"), "telemetry_v2")):
+            out = os.path.join(work, f"out_{lang}_{stem}")
+            os.makedirs(out, exist_ok=True)
+            p = subprocess.run([common.PY, "-m", "bitproto._main", lang, spelled, out, "-q"], cwd=work, capture_output=True, text=True,
+                               env={**os.environ, "PYTHONPATH": f"{common.REPO}/compiler:{common.REPO}/lib/py", "PYTHONDONTWRITEBYTECODE": "1"})
+            want = {"c": {f"{stem}_bp.h", f"{stem}_bp.c"}, "go": {f"{stem}_bp.go"}, "py": {f"{stem}_bp.py"}}[lang]
+            got = set(os.listdir(out))
+            run.count("cli_runs_through_link_or_relative_path")
+            included_ok = True
+            if lang == "c" and f"{stem}_bp.c" in got:
+                included_ok = f'#include "{stem}_bp.h"' in open(os.path.join(out, f"{stem}_bp.c")).read()
+            if p.returncode != 0 or got != want or not included_ok:
+                run.violation(dict(rep, kind="impl-vs-spec", language=lang, what="names of the written files (schema given as " + spelled + ", a symbolic link to ../store_q/telemetry_v2.bitproto)",
+                                   observed_impl={"exit": p.returncode, "files": sorted(got), "stderr": p.stderr[-300:], "c file includes its own header": included_ok},
+                                   expected_by_spec=sorted(want)))
